@@ -50,6 +50,19 @@ CLAIMED = {
  "C16": dict(technique="guard rules and flag typestate on the dynamic-block-time paths",
    text="Structural clauses only: subscription callback/MaxTimePerBlock only when configured; one subscription wrapper; flag cleared by request sends and epoch writes; declining builder is effect-free and declines only when configured, unforced and with an empty pool; no ChangeView for an idle backup on its first view-0 timeout; OnNewTransaction forces only while subscribed with the timer's epoch.",
    note="Every timing clause (minimum spacing of proposals, 'only once the maximum elapsed', promptness) depends on numeric relations between durations, RTT and the clock: not applicable and not claimed. " + A, ref="4/C16"),
+
+ "C17": dict(technique="client typestate / provenance rules on the example program",
+   text="The simulation's event loop re-initialises the library after a processed block (from the loop, under a block-processed condition, not from inside the ProcessBlock callback); ledger callbacks return what ProcessBlock stores; OnTimeout gets the timer's own epoch; the timer channel is re-read each iteration; every required option is supplied; the reference block/payload constructors receive the context fields in their roles.",
+   note="Goroutine schedules, block interval and agreement between simulated nodes are run-time behaviour of a concurrent program: not applicable and not claimed. " + A, ref="4/C17"),
+ "C18": dict(technique="path enumeration with symbolic field values on package timer (provenance, must-pass-through, affine form)",
+   text="Structural clauses of the bundled timer: Height()/View() report what Reset stored from its parameters; Reset stores start, duration, height, view on every path; C() selects the channel by whether a runtime timer is armed; sends on the immediate channel are drained first and only for a zero duration; Extend accumulates unconditionally, re-arms for total-elapsed from the stored start under total>elapsed and never leaves a pending expiry disarmed; NewTimer only after stop.",
+   note="'Never early', 'within tolerance' and 'stale expiry never delivered' are real-time properties of time.Timer and channel races: not applicable to static analysis and not claimed. " + A, ref="4/C18"),
+ "C19": dict(technique="encoder/decoder field agreement on enumerated paths, gob exported-field rule, constructor role tables, reconstruction agreement",
+   text="For every type with EncodeBinary/DecodeBinary each wire field is read by the encoder and assigned by the decoder on every successful path; gob structs have only exported fields; decoders propagate every error; the recovery message packs every kind and each Get* reconstruction uses the kind, body type and list of its arm and copies every body field, stamping the rebuilt proposal with the primary index; Payload.Hash is Hash256 of the unsigned encoding; block Hash/Sign/Verify feed GetHashData without the signature; constructors use every parameter in its role; ECDSA Sign/Verify digest alike; Merkle parents hash left||right.",
+   note="Collision resistance, ECDSA soundness, gob's robustness on arbitrary bytes, the Merkle odd-level duplication ambiguity and value-dependent panics on short inputs are not decided. " + A, ref="4/C19"),
+ "C20": dict(technique="syntactic type inference and guard discipline over the SANY semantic tree (no model checking)",
+   text="TypeOK is shown inductive for every MaxView and fault set by typing Init and every primed assignment reachable from Next against the shapes TypeOK declares (130 assignments in the five specs); InvFaultNodesCount follows from the membership guards on bad/dead and the ASSUME; for the no-fork invariant only the presence of the quorum guards, the commit lock (where the spec has one) and F/M definitions is checked; every action is linked into Next and launch-file invariants exist.",
+   note="InvTwoBlocksAccepted itself, InvDeadlock and liveness are reachability facts of the product state space and are NOT decided (they need a model checker, another technique family). Assumption T1: CHOOSE is applied where a witness exists.", ref="4/C20"),
  "C13": dict(
    technique="all-paths guard analysis (path-condition algebra + backward demand over the resolved call graph)",
    text="Static all-paths rule G-SILENT: every call of Config.Broadcast, Block.Sign and PreBlock.SetData in package dbft is proven to be behind 'MyIndex>=0 and !Config.WatchOnly()' on every syntactic path from each of the six API entries; quantifies over every schedule/state because it quantifies over every path. This is the strongest decision a static argument gives for the silence clause.",
